@@ -57,6 +57,7 @@ class Interp:
         self.steps = []
         self.cfg = {"serializer": serializer}
         self.handlers = []
+        self.call_seq = []          # handler ids in the order they were invoked (all events)
         self.bad_self = []
         self.pending_sub = []       # (request id, [H...], topic)
         self.model = {}             # sid -> [H] attached, in order
@@ -79,6 +80,7 @@ class Interp:
 
         def body(args, kwargs):
             h.calls.append((args, dict(kwargs)))
+            interp.call_seq.append(h.hid)
             if h.unsubscribed:
                 h.calls_after_unsub += 1
             b = h.behaviour
@@ -404,6 +406,7 @@ class Interp:
         if details:
             kw = {"publisher": 4711, "publisher_authid": "joe", "topic": "com.example.full.topic", "retained": True}
         n_user_err = len(self.w.user_errors)
+        n_seq = len(self.call_seq)
         err = self.w.feed(M.Event(sid, 3000 + len(self.steps), args=list(args) or None, kwargs=dict(kwargs) or None, **kw))
         if err is not None:
             self.fail("event-dispatch-raised|" + exc_key(err), "%r escaped onMessage (handlers: %r)" % (err, [(h.hid, h.behaviour) for h in expected]))
@@ -467,8 +470,12 @@ class Interp:
             elif sid2 in self.model and sid2 not in self.inflight:
                 self.model[sid2].append(h2)
         self.spawned[:] = []
-        # order among handlers of this id: compare the global call sequence
-        seq = getattr(self, "_seq", None)
+        # order among handlers of this id: those that were invoked for this event were invoked in subscription order
+        exp_ids = [h.hid for h in expected]
+        invoked = [hid for hid in self.call_seq[n_seq:] if hid in exp_ids]
+        in_model_order = [hid for hid in exp_ids if hid in invoked]
+        if invoked != in_model_order and len(invoked) == len(set(invoked)):
+            self.fail("handler-order", "sid %d: handlers attached in the order %r were invoked in the order %r" % (sid, exp_ids, invoked))
         self.saw_mutation_between_events = False
         # pending results are resolved now
         import txaio
